@@ -32,6 +32,7 @@ impl<'a> TxFreelist {
 
     pub(crate) fn free(&mut self, page_id: PageID, num_pages: u64) {
         debug_assert!(num_pages > 0, "cannot free zero pages");
+        vpoint!("fl:free", tx_id = self.meta.tx_id, page = page_id, n = num_pages);
         for id in page_id..(page_id + num_pages) {
             self.inner.free(self.meta.tx_id, id);
         }
@@ -50,6 +51,8 @@ impl<'a> TxFreelist {
         } else {
             (bytes / self.meta.pagesize) + 1
         };
+        #[cfg(jammdb_verif)]
+        let np_before = self.meta.num_pages;
         let page_id = match self.inner.allocate(num_pages as usize) {
             Some(page_id) => page_id,
             None => {
@@ -58,6 +61,13 @@ impl<'a> TxFreelist {
                 page_id
             }
         };
+        vpoint!(
+            "fl:alloc",
+            n = num_pages,
+            page = page_id,
+            extended = self.meta.num_pages != np_before,
+            num_pages = self.meta.num_pages,
+        );
 
         let ptr = self
             .arena
@@ -108,6 +118,7 @@ impl Freelist {
 
     // frees all pages from old transactions that have lower ids than the given tx_id
     pub(crate) fn release(&mut self, tx_id: u64) {
+        vpoint!("fl:release", bound = tx_id, npending = self.pending_pages.len());
         let pending_ids: Vec<u64> = self.pending_pages.keys().cloned().collect();
         for other_tx_id in pending_ids {
             if other_tx_id < tx_id {
